@@ -3,6 +3,7 @@
 // re-write) by two routes (Header::parse and through RequestParser), and for lookups the
 // generated header list itself (first occurrence wins, value bytes intact).
 #include "common/harness.h"
+#include <map>
 
 #include <pistache/http.h>
 #include <pistache/http_header.h>
@@ -257,6 +258,7 @@ namespace
                                           Subtype::JsonSchema, Subtype::JsonSchemaInstance, Subtype::FormUrlEncoded, Subtype::FormData, Subtype::Png, Subtype::Gif, Subtype::Bmp, Subtype::Jpeg };
             static const Suffix SF[] = { Suffix::Json, Suffix::Ber, Suffix::Der, Suffix::Fastinfoset, Suffix::Wbxml, Suffix::Zip, Suffix::Xml };
             MediaType m;
+            std::map<std::string, std::string> set_params; // what setParam() was given (constructed form)
             bool parsed_form = c.coin(100);
             if (parsed_form)
             {
@@ -269,23 +271,44 @@ namespace
             {
                 bool hasF = c.coin(100);
                 m         = hasF ? MediaType(TY[c.pick(8)], SU[c.pick(17)], SF[c.pick(7)]) : MediaType(TY[c.pick(8)], SU[c.pick(17)]);
+                // The value is built in steps through the API.  In every other case (by the type and subtype
+                // drawn, no choice consumed) something looks at it in between - its text is taken, a header made
+                // of it is written - as logging or an earlier response would: what is written in the end must be
+                // the value as it is then, not as it was when first looked at.
+                bool observed_mid = (int(m.top()) + int(m.sub())) % 2 == 0;
+                if (observed_mid)
+                {
+                    (void)m.toString();
+                    (void)write_of(H::ContentType(m));
+                    rep.label("Content-Type(written once before it was complete)");
+                }
                 if (c.coin(128))
                     m.setQuality(Q(Q::Type(c.coin(80) ? (c.coin(128) ? 0 : 100) : c.range(0, 100))));
                 unsigned np = c.pick(3);
                 for (unsigned i = 0; i < np; ++i)
-                    m.setParam("abcdefghijklmnoprstuvwxyz"[c.pick(25)] + c.from(TOKCH, c.range(0, 5)), c.from(TOKCH, c.range(1, 8)));
+                {
+                    std::string pn = "abcdefghijklmnoprstuvwxyz"[c.pick(25)] + c.from(TOKCH, c.range(0, 5)), pv = c.from(TOKCH, c.range(1, 8));
+                    m.setParam(pn, pv);
+                    set_params[pn] = pv;
+                }
             }
             H::ContentType h(m);
             nt   = true;
             desc = "Content-Type: " + write_of(h);
             rep.label(parsed_form ? "type:Content-Type(parsed)" : "type:Content-Type(constructed)");
             v = roundtrip<H::ContentType>(
-                h, [](const H::ContentType& a, const H::ContentType& b) -> std::string {
+                h, [set_params](const H::ContentType& a, const H::ContentType& b) -> std::string {
                     auto x = a.mime(), y = b.mime();
                     if (x.top() != y.top() || x.sub() != y.sub() || x.suffix() != y.suffix())
                         return "type/subtype/suffix differ";
                     if (bool(x.q()) != bool(y.q()) || (x.q() && x.q()->value() != y.q()->value()))
                         return "q differs";
+                    for (auto& kv : set_params)
+                    {
+                        auto got = y.getParam(kv.first);
+                        if (!got || *got != kv.second)
+                            return "parameter " + kv.first + "=" + kv.second + " set through the API " + (got ? "came back as " + *got : "is missing after write and parse");
+                    }
                     return "";
                 },
                 true, "Content-Type");
